@@ -26,6 +26,11 @@ use text_utils::data::loading::{BatchLimitType, BatchedIterator, ItemSize};
 use text_utils::utils::find_subsequences_of_max_size_k;
 use vh::*;
 
+const MAX_ITEMS: usize = 70_000;
+const MAX_SIZE: usize = 70_000;
+const MAX_LIMIT: usize = 1 << 20;
+const MAX_PREFETCH: usize = 70_000;
+const MAX_PRODUCT: usize = 1 << 22;
 const TIMEOUT_MS: u64 = 1500;
 const CONFIRM_MS: u64 = 6000;
 
@@ -126,7 +131,27 @@ fn drain(c: &Cfg) -> Val {
 /// selection sequence (Lehmer code) of a permutation given as `new[j] = old[idx[j]]`:
 /// element k = position of idx[k] among the indices not yet taken, in increasing order
 fn lehmer(idx: &[usize]) -> Vec<usize> {
-    (0..idx.len()).map(|k| idx[k] - idx[..k].iter().filter(|j| **j < idx[k]).count()).collect()
+    if idx.len() <= 64 {
+        return (0..idx.len()).map(|k| idx[k] - idx[..k].iter().filter(|j| **j < idx[k]).count()).collect();
+    }
+    // same function with a Fenwick tree over the indices already taken (scale stream: buffers of thousands)
+    let n = idx.len();
+    let mut tree = vec![0usize; n + 1];
+    let mut out = Vec::with_capacity(n);
+    for &v in idx {
+        let (mut below, mut i) = (0usize, v); // number of taken indices < v = prefix sum over 1..=v
+        while i > 0 {
+            below += tree[i];
+            i &= i - 1;
+        }
+        out.push(v - below);
+        let mut i = v + 1;
+        while i <= n {
+            tree[i] += 1;
+            i += i & i.wrapping_neg();
+        }
+    }
+    out
 }
 
 /// The rng decisions of a run, replayed in lock-step from the seed. `None` if what was observed
@@ -182,7 +207,9 @@ fn observe(c: &Cfg, batches: &[Vec<usize>], pulls: &[usize]) -> Option<Val> {
 impl C06 {
     fn watched(&mut self, c: &Cfg) -> Val {
         let c1 = c.clone();
-        let v = with_timeout(TIMEOUT_MS, move || drain(&c1));
+        // scale cases (hundreds to tens of thousands of items, buffers of thousands) get a longer budget
+        let big = c.sizes.len() > 200 || c.limit.max(1).saturating_mul(c.prefetch.max(1)) > 1000;
+        let v = with_timeout(if big { 30000 } else { TIMEOUT_MS }, move || drain(&c1));
         if v != Val::hang() {
             return v;
         }
@@ -277,8 +304,82 @@ fn gen_boundary(rng: &mut Rng) -> Cfg {
     Cfg { sort, shuffle, prefetch, limit, ty, seed, sizes }
 }
 
+/// sizes that cross the thresholds a refactoring could introduce, capped at `max`
+const SCALE_SIZES: &[usize] = &[255, 256, 257, 300, 1023, 1025, 4097, 65537];
+fn scale_size(rng: &mut Rng, max: usize) -> usize {
+    let ok: Vec<usize> = SCALE_SIZES.iter().copied().filter(|s| *s <= max).collect();
+    if ok.is_empty() { max } else { *rng.pick(&ok) }
+}
+
+/// SCALE stream: many items, batch limits / prefetch factors / item sizes in the hundreds and thousands.
+/// Limits that come from the MODEL: its time is cubic in the number of items in every mode (measured: 300 items
+/// 0.02 s, 1025 items 0.4-1 s, 2000 items 3 s, 4097 items > 20 s), and it counts sizes in unary (the padded limit
+/// count * max is a unary product per buffer update). Hence: at most 1025 items (mostly 255..300), large item sizes
+/// only with few items (items^2 * size <= 5 * 10^6), limit * prefetch < 2^22.
+fn gen_scale(rng: &mut Rng) -> Cfg {
+    let mode = rng.below(4);
+    let (sort, shuffle) = (mode & 1 == 1, mode & 2 == 2);
+    let ty = rng.below(2) as i64;
+    let seed = if rng.chance(1, 3) { rng.below(4) as u64 } else { rng.next_u64() >> 3 };
+    let around = |rng: &mut Rng, cap: usize| match rng.below(3) {
+        0 => scale_size(rng, cap) - 1,
+        1 => scale_size(rng, cap) + 1,
+        _ => scale_size(rng, cap),
+    };
+    let items = |rng: &mut Rng| if rng.chance(1, 8) { *rng.pick(&[1023usize, 1025]) } else { scale_size(rng, 300) };
+    let (n, limit, prefetch, maxs): (usize, usize, usize, usize);
+    match rng.below(5) {
+        0 => {
+            // many items, small limit: hundreds of batches
+            n = items(rng);
+            limit = rng.range(1, 9);
+            prefetch = rng.below(4);
+            maxs = *rng.pick(&[1usize, 3, 6]);
+        }
+        1 => {
+            // batch limit in the hundreds / thousands: batches of 255+ items
+            let lcap = if rng.chance(1, 4) { 1025 } else { 300 };
+            limit = around(rng, lcap);
+            prefetch = rng.below(3);
+            maxs = if ty == 0 { 3 } else { *rng.pick(&[1usize, 1, 2, 4]) };
+            let per = if ty == 0 { limit } else { limit / maxs.max(1) };
+            n = (per * rng.range(1, 3) + rng.below(3)).min(1025);
+        }
+        2 => {
+            // prefetch factor in the hundreds / thousands (and 65537): the fill reads the whole input
+            prefetch = around(rng, 65537);
+            limit = rng.range(1, 8);
+            maxs = *rng.pick(&[1usize, 2, 3]);
+            n = *rng.pick(&[255usize, 256, 257, 300]);
+        }
+        3 => {
+            // item sizes in the hundreds / thousands (and 65537; matters for the padded limit), few items
+            maxs = scale_size(rng, 65537);
+            limit = (maxs * rng.range(1, 5) + rng.below(3)).saturating_sub(1);
+            prefetch = rng.below(4);
+            let cap = ((5_000_000 / maxs) as f64).sqrt() as usize;
+            n = rng.range(2, cap.clamp(4, 40));
+        }
+        _ => {
+            // everything moderately large
+            limit = *rng.pick(&[255usize, 256, 257, 300]);
+            prefetch = *rng.pick(&[2usize, 3, 4, 16]);
+            maxs = *rng.pick(&[1usize, 2, 3]);
+            n = items(rng);
+        }
+    }
+    let mut sizes = gen_sizes(rng, n, maxs);
+    for s in sizes.iter_mut() {
+        *s = (*s).min(MAX_SIZE);
+    }
+    Cfg { sort, shuffle, prefetch, limit, ty, seed, sizes }
+}
+
 impl Prop for C06 {
-    fn gen(&mut self, rng: &mut Rng, tier: Tier, _i: usize, _n: usize) -> Val {
+    fn gen(&mut self, rng: &mut Rng, tier: Tier, i: usize, _n: usize) -> Val {
+        if i == 2 || rng.chance(1, 100) {
+            return to_val(&gen_scale(rng));
+        }
         if rng.chance(3, 10) {
             return to_val(&gen_boundary(rng));
         }
@@ -349,7 +450,11 @@ impl Prop for C06 {
 
     fn run(&mut self, input: &Val) -> Option<(Val, Vec<String>)> {
         let c = parse_input(input)?;
-        if c.sizes.len() > 200 || c.sizes.iter().any(|s| *s > 1000) || c.limit > 1000 || c.prefetch > 100 {
+        // domain of the harness: the model counts in unary, so the products stay below 2^22
+        if c.sizes.len() > MAX_ITEMS || c.sizes.iter().any(|s| *s > MAX_SIZE) || c.limit > MAX_LIMIT || c.prefetch > MAX_PREFETCH {
+            return None;
+        }
+        if c.limit.max(1) * c.prefetch.max(1) > MAX_PRODUCT || c.sizes.len() * c.sizes.iter().copied().max().unwrap_or(0) > (1 << 26) {
             return None;
         }
         if !(0..2).contains(&c.ty) || c.seed >= 1 << 62 {
@@ -428,6 +533,22 @@ impl Prop for C06 {
         if c.prefetch <= 1 {
             tags.push("prefetch01".into());
         }
+        // scale tags, derived from the input and the run
+        {
+            let maxb = ids.as_ref().map(|v| v.iter().map(|b| b.len()).max().unwrap_or(0)).unwrap_or(0);
+            let dims = [
+                (c.sizes.len() >= 255, "scale-items"),
+                (c.limit >= 255, "scale-limit"),
+                (c.prefetch >= 255, "scale-prefetch"),
+                (c.sizes.iter().any(|s| *s >= 255), "scale-size"),
+                (nb >= 255, "scale-batches"),
+                (maxb >= 255, "scale-batchlen"),
+            ];
+            if dims.iter().any(|d| d.0) {
+                tags.push("scale".into());
+                tags.extend(dims.iter().filter(|d| d.0).map(|d| d.1.to_string()));
+            }
+        }
         Some((Val::L(vec![batches, Val::b(rep), Val::opt(obs, |x| x)]), tags))
     }
 
@@ -437,12 +558,14 @@ impl Prop for C06 {
             return None;
         }
         let u = |v: &Val, m: i64| v.as_i().unwrap_or(0).rem_euclid(m);
-        let sizes: Vec<usize> = l[6].as_l()?.iter().map(|v| u(v, 1001) as usize).collect();
+        let sizes: Vec<usize> = l[6].as_l()?.iter().take(MAX_ITEMS).map(|v| u(v, MAX_SIZE as i64 + 1) as usize).collect();
+        let limit = u(&l[3], MAX_LIMIT as i64 + 1) as usize;
+        let prefetch = (u(&l[2], MAX_PREFETCH as i64 + 1) as usize).min(MAX_PRODUCT / limit.max(1));
         Some(to_val(&Cfg {
             sort: u(&l[0], 2) == 1,
             shuffle: u(&l[1], 2) == 1,
-            prefetch: u(&l[2], 101) as usize,
-            limit: u(&l[3], 1001) as usize,
+            prefetch,
+            limit,
             ty: u(&l[4], 2),
             seed: l[5].as_i()?.unsigned_abs() & ((1 << 62) - 1),
             sizes,
